@@ -848,7 +848,11 @@ theorem marshalPKCS8_ec_fits (k : EcPriv) (m : String) (h : k.d < 256 ^ orderByt
   have : ¬ k.d ≥ 256 ^ orderBytes k.crv := by omega
   simp [marshalPKCS8, this]
 
-theorem order_fits : ∀ i : Fin 4, curveOrder (curveCode i) ≤ ((256 ^ orderBytes i : Nat) : Int) := by decide
+theorem order_fits' (c : Nat) (hc : curveSupported c = true) :
+    curveOrder c ≤ ((256 ^ orderBytes (curveIx c) : Nat) : Int) := by
+  have hc' : c = 4 ∨ c = 7 ∨ c = 10 ∨ c = 13 := by
+    simp [curveSupported] at hc; omega
+  rcases hc' with e | e | e | e <;> subst e <;> decide
 
 theorem deEcPub_ser (k : EcPub) : deEcPub (serEcPub k) = some k := by
   simp [deEcPub, serEcPub, List.append_assoc, takeUn_un, takeUn_un_nil, k.crv.isLt]
@@ -920,8 +924,8 @@ def crypto : Crypto where
         | none => simp [hd] at h
         | some k' =>
           simp [hd] at h
-          subst h
-          exact deEcPriv_fits r k' hd
+          cases h
+          exact deEcPriv_fits r _ hd
       · simp at h
       · cases h
   marshalPKCS8_sec1_noPanic bs k m h := by
@@ -935,14 +939,10 @@ def crypto : Crypto where
   marshalPKCS8_built_noPanic c d m hc h0 h1 := by
     apply marshalPKCS8_ec_fits
     show d.natAbs < 256 ^ orderBytes (curveIx c)
-    have hc' : c = 4 ∨ c = 7 ∨ c = 10 ∨ c = 13 := by
-      simp [curveSupported] at hc; omega
     have h1' : d < curveOrder c := h1
-    rcases hc' with e | e | e | e <;> subst e
-    · have := order_fits 0; simp only [curveCode] at this; simp only [curveIx]; simp at this ⊢; omega
-    · have := order_fits 1; simp only [curveCode] at this; simp only [curveIx]; simp at this ⊢; omega
-    · have := order_fits 2; simp only [curveCode] at this; simp only [curveIx]; simp at this ⊢; omega
-    · have := order_fits 3; simp only [curveCode] at this; simp only [curveIx]; simp at this ⊢; omega
+    have hfit := order_fits' c hc
+    have : ((d.natAbs : Nat) : Int) < ((256 ^ orderBytes (curveIx c) : Nat) : Int) := by omega
+    exact Int.ofNat_lt.mp this
 
 end Toy
 
@@ -978,15 +978,14 @@ theorem rsaPriv_extract (C : Crypto) (kf : Nat) (k : C.RsaPriv) (o : Obj)
         · cases h
       · split at h
         · split at h
-          swap
+          · rename_i p q hp
+            cases h
+            have he := C.rsaPriv_e_int k
+            have hparts := RsaParts.eta2 (C.rsaPrivParts k) p q hp
+            simp [getRsaPrivateKey, respOf, Obj.typeCode, plainKB, privRSA, getMaterial,
+              fPKCS1, fPKCS8, fTransparentRSAPrivateKey, he, toInt64_of_isInt64 he, hparts,
+              C.rsaPrivBuild_parts k p q hp]
           · cases h
-          rename_i p q hp
-          cases h
-          have he := C.rsaPriv_e_int k
-          have hparts := RsaParts.eta2 (C.rsaPrivParts k) p q hp
-          simp [getRsaPrivateKey, respOf, Obj.typeCode, plainKB, privRSA, getMaterial,
-            fPKCS1, fPKCS8, fTransparentRSAPrivateKey, he, toInt64_of_isInt64 he, hparts,
-            C.rsaPrivBuild_parts k p q hp]
         · cases h
 
 theorem rsaPub_extract (C : Crypto) (kf : Nat) (k : C.RsaPub) (o : Obj)
@@ -1015,7 +1014,7 @@ theorem rsaPub_extract (C : Crypto) (kf : Nat) (k : C.RsaPub) (o : Obj)
         · cases h
 
 theorem ecPriv_extract (C : Crypto) (kf : Nat) (ver : Nat × Nat) (k : C.EcPriv) (o : Obj)
-    (hr : 0 < C.ecPrivD k ∧ C.ecPrivD k < C.curveOrder (C.ecPrivCurve k))
+    (hr : ecdsaPrivFormat kf = kfTransparent → 0 < C.ecPrivD k ∧ C.ecPrivD k < C.curveOrder (C.ecPrivCurve k))
     (h : registerEcPriv C.toCryptoOps kf ver k = .ok o) :
     getEcdsaPrivateKey C.toCryptoOps (respOf o) = .ok k := by
   unfold registerEcPriv at h
@@ -1040,7 +1039,9 @@ theorem ecPriv_extract (C : Crypto) (kf : Nat) (ver : Nat × Nat) (k : C.EcPriv)
         · cases h
         · cases h
       · split at h
-        · split at h
+        · rename_i hft
+          have hr := hr hft
+          split at h
           · cases h
             simp [getEcdsaPrivateKey, respOf, Obj.typeCode, plainKB, privECDSA, getMaterial, ecPrivSlot,
               privECDSATail, fECPrivateKey, fPKCS8, fTransparentECPrivateKey, fTransparentECDSAPrivateKey,
@@ -1050,6 +1051,30 @@ theorem ecPriv_extract (C : Crypto) (kf : Nat) (ver : Nat × Nat) (k : C.EcPriv)
               privECDSATail, fECPrivateKey, fPKCS8, fTransparentECPrivateKey, fTransparentECDSAPrivateKey,
               hc', C.ecPrivBuild_parts k hc', hr]
         · cases h
+
+/-- a transparent EC private key whose scalar is not in `[1, n-1]` is registered as it is and refused by
+    the accessor (e2e4a08). -/
+theorem ecPriv_extract_invalid (C : Crypto) (kf : Nat) (ver : Nat × Nat) (k : C.EcPriv) (o : Obj)
+    (hf : ecdsaPrivFormat kf = kfTransparent)
+    (hr : ¬ (0 < C.ecPrivD k ∧ C.ecPrivD k < C.curveOrder (C.ecPrivCurve k)))
+    (h : registerEcPriv C.toCryptoOps kf ver k = .ok o) :
+    getEcdsaPrivateKey C.toCryptoOps (respOf o) = .err .range := by
+  have hr' : C.ecPrivD k ≤ 0 ∨ C.ecPrivD k ≥ C.curveOrder (C.ecPrivCurve k) := by omega
+  unfold registerEcPriv at h
+  simp only [hf] at h
+  split at h
+  · cases h
+  · rename_i hc
+    have hc' : curveSupported (C.ecPrivCurve k) = true := by simpa using hc
+    simp only [kfTransparent, kfSEC1, kfPKCS8] at h
+    simp only [show ¬ (1 : Nat) = 16 by decide, show ¬ (1 : Nat) = 4 by decide, if_false, if_true] at h
+    split at h
+    · cases h
+      simp [getEcdsaPrivateKey, respOf, Obj.typeCode, plainKB, privECDSA, getMaterial, ecPrivSlot,
+        privECDSATail, fECPrivateKey, fPKCS8, fTransparentECPrivateKey, fTransparentECDSAPrivateKey, hc', hr']
+    · cases h
+      simp [getEcdsaPrivateKey, respOf, Obj.typeCode, plainKB, privECDSA, getMaterial, ecPrivSlot,
+        privECDSATail, fECPrivateKey, fPKCS8, fTransparentECPrivateKey, fTransparentECDSAPrivateKey, hc', hr']
 
 theorem ecPub_extract (C : Crypto) (kf : Nat) (ver : Nat × Nat) (k : C.EcPub) (o : Obj)
     (h : registerEcPub C.toCryptoOps kf ver k = .ok o) :
@@ -1222,24 +1247,24 @@ theorem pubCrypto_of_pubECDSA (C : CryptoOps) (kb : KeyBlockV) (k : C.EcPub)
 
 /-! ### what the register builders can and cannot do -/
 
-/-- a multi-prime RSA key registered in the transparent format loses every prime after the second:
-    the key that comes back is rebuilt from `[p, q]` only. -/
+/-- before d693174: a multi-prime RSA key registered in the transparent format loses every prime after the
+    second: the key that comes back is rebuilt from `[p, q]` only. -/
 theorem rsaPriv_transparent_truncates (C : Crypto) (kf : Nat) (k : C.RsaPriv) (p q : Int) (rest : List Int)
     (hp : (C.rsaPrivParts k).primes = p :: q :: rest)
     (hlen : bitLen (C.rsaPrivParts k).n ≤ maxInt32)
     (hf : rsaPrivFormat kf = kfTransparent) :
-    ∃ o, registerRsaPriv C.toCryptoOps kf k = .ok o ∧
+    ∃ o, registerRsaPrivOld C.toCryptoOps kf k = .ok o ∧
       getRsaPrivateKey C.toCryptoOps (respOf o) =
         .ok (C.rsaPrivBuild { C.rsaPrivParts k with primes := [p, q] }) := by
   have he := C.rsaPriv_e_int k
   have h1 : ¬ bitLen (C.rsaPrivParts k).n > maxInt32 := by omega
-  have hreg : registerRsaPriv C.toCryptoOps kf k = .ok (.privateKey (plainKB fTransparentRSAPrivateKey 0 algRSA
+  have hreg : registerRsaPrivOld C.toCryptoOps kf k = .ok (.privateKey (plainKB fTransparentRSAPrivateKey 0 algRSA
       (bitLen (C.rsaPrivParts k).n)
       { rsaPriv := some { modulus := (C.rsaPrivParts k).n, d := some (C.rsaPrivParts k).d,
                           e := some (C.rsaPrivParts k).e, p := some p, q := some q,
                           dp := (C.rsaPrivParts k).dp, dq := (C.rsaPrivParts k).dq,
                           qinv := (C.rsaPrivParts k).qinv } })) := by
-    unfold registerRsaPriv
+    unfold registerRsaPrivOld
     simp only [h1, if_false, hf, hp]
     simp [kfTransparent, kfPKCS1, kfPKCS8]
   refine ⟨_, hreg, ?_⟩
@@ -1297,13 +1322,39 @@ theorem symmetricFormat_mem (kf : Nat) :
     · exact Or.inr rfl
     · exact Or.inl rfl
 
-/-- the only panics of a register builder: `key.Primes[0]` / `key.Primes[1]` on an RSA private key with
-    fewer than two primes in the transparent format, or a panic inside `x509.MarshalPKCS8PrivateKey`.
-    "Unexpected key format" is unreachable. -/
+/-- HEAD refuses an RSA private key that has not exactly two primes in the transparent format. -/
+theorem registerRsaPriv_refuses (C : CryptoOps) (kf : Nat) (k : C.RsaPriv)
+    (hlen : bitLen (C.rsaPrivParts k).n ≤ maxInt32) (hf : rsaPrivFormat kf = kfTransparent)
+    (hp : (C.rsaPrivParts k).primes.length ≠ 2) : ∃ e, registerRsaPriv C kf k = .err e := by
+  have h1 : ¬ bitLen (C.rsaPrivParts k).n > maxInt32 := by omega
+  refine ⟨.other, ?_⟩
+  cases hpr : (C.rsaPrivParts k).primes with
+  | nil => simp [registerRsaPriv, h1, hf, hpr, kfTransparent, kfPKCS1, kfPKCS8]
+  | cons a t =>
+    cases t with
+    | nil => simp [registerRsaPriv, h1, hf, hpr, kfTransparent, kfPKCS1, kfPKCS8]
+    | cons b t' =>
+      cases t' with
+      | nil => rw [hpr] at hp; simp at hp
+      | cons c t'' => simp [registerRsaPriv, h1, hf, hpr, kfTransparent, kfPKCS1, kfPKCS8]
+
+/-- before d693174 the builder panicked on a key with fewer than two primes. -/
+theorem registerRsaPrivOld_panics (C : CryptoOps) (kf : Nat) (k : C.RsaPriv)
+    (hlen : bitLen (C.rsaPrivParts k).n ≤ maxInt32) (hf : rsaPrivFormat kf = kfTransparent)
+    (hp : (C.rsaPrivParts k).primes.length < 2) : ∃ m, registerRsaPrivOld C kf k = .panic m := by
+  have h1 : ¬ bitLen (C.rsaPrivParts k).n > maxInt32 := by omega
+  refine ⟨"index out of range", ?_⟩
+  cases hpr : (C.rsaPrivParts k).primes with
+  | nil => simp [registerRsaPrivOld, h1, hf, hpr, kfTransparent, kfPKCS1, kfPKCS8]
+  | cons a t =>
+    cases t with
+    | nil => simp [registerRsaPrivOld, h1, hf, hpr, kfTransparent, kfPKCS1, kfPKCS8]
+    | cons b t' => rw [hpr] at hp; simp at hp; omega
+
+/-- a register builder never panics in its own code ("Unexpected key format" is unreachable, the prime
+    index is guarded): a panic is one of `x509.MarshalPKCS8PrivateKey` on the caller's key. -/
 theorem register_panic_only (C : CryptoOps) (kf : Nat) (ver : Nat × Nat) (key : AnyKey C) (m : String)
-    (h : register C kf ver key = .panic m) :
-    (∃ k, key = .rsaPriv k ∧ (C.rsaPrivParts k).primes.length < 2 ∧ rsaPrivFormat kf = kfTransparent) ∨
-    (∃ pk, C.marshalPKCS8 pk = .panic m) := by
+    (h : register C kf ver key = .panic m) : ∃ pk, C.marshalPKCS8 pk = .panic m := by
   cases key with
   | rsaPriv k =>
     simp only [register, registerRsaPriv] at h
@@ -1318,19 +1369,9 @@ theorem register_panic_only (C : CryptoOps) (kf : Nat) (ver : Nat × Nat) (key :
           · rename_i m' hm
             simp only [Res.panic.injEq] at h
             subst h
-            exact Or.inr ⟨_, hm⟩
+            exact ⟨_, hm⟩
         · split at h
-          · rename_i hf
-            refine Or.inl ⟨k, rfl, ?_, hf⟩
-            split at h
-            · cases h
-            · rename_i hne
-              cases hl : (C.rsaPrivParts k).primes with
-              | nil => simp
-              | cons a t =>
-                cases t with
-                | nil => simp
-                | cons b t' => exact absurd hl (hne a b t')
+          · split at h <;> cases h
           · exfalso
             rename_i h1 h2 h3
             rcases rsaPrivFormat_mem kf with h | h | h <;> contradiction
@@ -1360,7 +1401,7 @@ theorem register_panic_only (C : CryptoOps) (kf : Nat) (ver : Nat × Nat) (key :
           · rename_i m' hm
             simp only [Res.panic.injEq] at h
             subst h
-            exact Or.inr ⟨_, hm⟩
+            exact ⟨_, hm⟩
         · exfalso
           split at h
           · split at h <;> cases h
